@@ -4,8 +4,10 @@ Decides: R2.1 confinement for the 10 handlers and the 3 hit-set helpers;
 R2.2 boundary-family completeness (the polyhedron hit-set helpers visit both the
 faces and the edges, the polygon helper / in-plane case visit the full edge
 cycle, contained end points / origins are added) and agreement of the sibling
-helpers (abstract summaries equal up to the parameter); R2.3 the end-point case
-split of inter_segment_convexpolyhedron is propositionally exhaustive.
+helpers (candidate families equal up to the parameter); R2.3 the end-point case
+split of inter_segment_convexpolyhedron is propositionally exhaustive; R2.4 the
+Point-in-polygon / Point-in-polyhedron tests that clip every hit compare with a
+tolerance margin (f merely touching K, end point on the boundary).
 Coordinates, the longest-segment selection, hash-merging of coincident hits and
 tangency classification are NOT decided.
 """
@@ -126,4 +128,7 @@ def run(ctx, res):
         res.ob("R2.3", fi.where(), "end-point case split of %s" % fi.short, False, "no propositionally exhaustive split found")
         res.violation("R2.3", fi, fi.node, "the case split over `start_point in b` / `end_point in b` in %s is not exhaustive: "
                       "some combination reaches the internal raise or is unhandled" % fi.short, construct="%s case split" % fi.short)
+    # R2.4 the membership tests that clip every hit (`hit in cpg`, `end point in cph`) are inclusive at the boundary
+    from .c05 import r55_inclusive_thresholds
+    r55_inclusive_thresholds(ctx, res, cnames=("ConvexPolygon", "ConvexPolyhedron"), rule="R2.4", minimum=2)
     res.undecided_ob("coordinates of the hits; longest-segment selection; merging of coincident hits by hash; tangency")
